@@ -881,20 +881,23 @@ func runC18(c *Ctx) {
 	// ---- proxy: bounded-exhaustive
 	maxLen := 5
 	exh := 0
-	var rec func(ops []opT)
-	rec = func(ops []opT) {
-		for _, k := range mainCaps {
-			proxyCase(c, k, ops, "exhaustive")
-			exh++
-		}
-		if len(ops) == maxLen {
+	// shortest first, so that the first witness of a failure is a minimal one
+	var rec func(ops []opT, n int)
+	rec = func(ops []opT, n int) {
+		if len(ops) == n {
+			for _, k := range mainCaps {
+				proxyCase(c, k, ops, "exhaustive")
+				exh++
+			}
 			return
 		}
 		for _, s := range alphabet {
-			rec(append(append([]opT{}, ops...), s))
+			rec(append(append([]opT{}, ops...), s), n)
 		}
 	}
-	rec(nil)
+	for n := 0; n <= maxLen; n++ {
+		rec(nil, n)
+	}
 	c.Res.ExtraCoverage["proxy_exhaustive_cases"] = exh
 	c.Res.ExtraCoverage["proxy_exhaustive_max_len"] = maxLen
 	// ---- proxy: random
